@@ -21,7 +21,9 @@ Init == /\ elapsed = 0 /\ owed = 0
         /\ in = [w |-> IDLW, idle |-> FALSE] /\ out = IDLW
         /\ inLog = <<>> /\ outLog = <<>> /\ run = 0 /\ nid = 1
 
+\* Env (both assumptions of CtcTx): idle only flagged on the idle word; idle is offered before the debt passes MaxOwed
 Cycle(i) == /\ IdleLegal(i)
+            /\ OwedNext(owed, elapsed, i) <= MaxOwed
             /\ in' = i
             /\ out' = OutWord(owed, i)
             /\ elapsed' = ElapsedNext(elapsed)
@@ -54,7 +56,7 @@ OnlyIdleReplaced == /\ Len(outLog) = Len(inLog)
                           \/ (outLog[k] = SKPW /\ inLog[k].idle /\ inLog[k].w = IDLW)
 \* never ahead of schedule, and the debt is bounded when bursts are
 NeverAhead     == 2 * Inserted <= T \div Limit
-CreditBounded  == owed <= 2 + (4 * MaxBurst + Limit - 1) \div Limit      \* <= MaxOwed for the bounds used
+CreditBounded  == owed <= MaxOwed
 \* "whenever idle time permits": an idle word goes out un-replaced only when fewer than two sets are owed
 AtEveryOpportunity == [][(in'.idle /\ out' # SKPW) => owed < 2]_vars
 OnlyWhenOwed       == [][(out' = SKPW /\ in'.w # SKPW) => (owed >= 2 /\ in'.idle)]_vars
